@@ -50,11 +50,14 @@ template <class E> Segment c01EnumSegment(long H) {
     const uint64_t nbPatterns = (k >= 63) ? 0 : ((1ULL << k) - 1);
     Segment s;
     s.name = "c01-enum-D" + vh::str(D) + "H" + vh::str(H);
-    s.count = [=](bool th) { return long(2 * (th ? nbPatterns : std::min<uint64_t>(nbPatterns, 1200))); };
+    // thorough: every pattern with one particle per leaf; the multi-particle pass on every pattern of the small slices and every 8th of the 16-leaf ones
+    const uint64_t multiStride = nbPatterns > 1200 ? 8 : 1;
+    s.count = [=](bool th) { return long(th ? nbPatterns + (nbPatterns + multiStride - 1) / multiStride : 2 * std::min<uint64_t>(nbPatterns, 1200)); };
     s.run = [=](long kk, uint64_t seed, bool th, Result& res) {
         const bool sampled = !th && nbPatterns > 1200;
-        const int pass = int(kk & 1);
-        const uint64_t pi = uint64_t(kk >> 1);
+        int pass; uint64_t pi;
+        if (th) { if (uint64_t(kk) < nbPatterns) { pass = 0; pi = uint64_t(kk); } else { pass = 1; pi = (uint64_t(kk) - nbPatterns) * multiStride; } }
+        else { pass = int(kk & 1); pi = uint64_t(kk >> 1); }
         const uint64_t mask = sampled ? (vh::mix(seed, pi) % nbPatterns) + 1 : pi + 1;
         vh::Rng r(vh::mix(seed ^ 0xE17, uint64_t(kk)));
         Conf<E> c; c.seed = vh::mix(seed, kk);
@@ -67,7 +70,8 @@ template <class E> Segment c01EnumSegment(long H) {
         res.desc = "occupancy pattern 0x" + [&] { std::ostringstream o; o << std::hex << mask; return o.str(); }() + " of the " + vh::str(k) + " leaves, " + vh::str(c.parts.size()) + " particles, every block size x both grouping modes; " ;
         const long nl = long(leaves.size());
         std::vector<long> bss;
-        if (th) for (long b = 1; b <= k + 1; ++b) bss.push_back(b);
+        if (th && k <= 8) for (long b = 1; b <= k + 1; ++b) bss.push_back(b);
+        else if (th) { for (long b : {1L, 2L, 3L, 4L, 5L, 7L, 8L, 11L, nl, k, k + 1}) if (std::find(bss.begin(), bss.end(), b) == bss.end() && b >= 1) bss.push_back(b); }
         else { for (long b : {1L, 2L, 3L, nl, k + 1}) if (std::find(bss.begin(), bss.end(), b) == bss.end() && b >= 1) bss.push_back(b); }
         bool first = true;
         for (long bs : bss) for (int ogp = 0; ogp < 2; ++ogp) {
